@@ -131,6 +131,16 @@ def norm_cases(draw):
         case["stretch"] = draw(stretches())
     if via != "direct" and draw(st.booleans()):
         case["x2"] = draw(data_arrays(dtype=x["dtype"]))
+    if via == "direct" and draw(st.integers(0, 2)) == 0:
+        # history on ONE norm object and ONE array object: normalise, overwrite the buffer in place with
+        # new contents (a live-display loop), normalise again.  Each call must obey the laws for the data
+        # it is given.
+        n = len(x["data"])
+        x2 = draw(data_arrays(dtype=x["dtype"]))
+        flat = (x2["data"] * (n // len(x2["data"]) + 1))[:n]
+        fin = [v for v in flat if isinstance(v, int) or math.isfinite(v)]
+        if len(set(fin)) >= 2:
+            case["inplace_update"] = flat
     return case
 
 
@@ -348,6 +358,20 @@ def check(ctx, case):
             y = norm(x)
         _judge_limits(case, x, lims, il, "interval.get_limits(x)")
         _judge_output(case, x, y, lims, eps, "norm(x)")
+        if case.get("inplace_update") is not None:
+            xin = None  # the buffer is deliberately overwritten below
+            x[...] = np.array(case["inplace_update"], dtype=x.dtype).reshape(x.shape)
+            lims2 = _oracle_limits(interval, x)
+            ok2 = math.isfinite(lims2[0]) and math.isfinite(lims2[1]) and not (0 < lims2[1] - lims2[0] < 4 * float(np.finfo(work).tiny))
+            if interval["type"] == "manual" and not lims2[0] < lims2[1]:
+                ok2 = False  # the fixed manual limit ended up on the wrong side of the new data: not a claimed configuration
+            if ok2:
+                with ctx.sut(case, "second call of the same norm on the same (in-place updated) array object"):
+                    il2 = norm.interval.get_limits(x)
+                    y2 = norm(x)
+                _judge_limits(case, x, lims2, il2, "interval.get_limits after the in-place update of the array")
+                _judge_output(case, x, y2, lims2, eps, "norm(x) after the in-place update of the array")
+                ctx.count("inplace_update_history")
     else:
         with ctx.sut(case, "CustomNormalization(..., data=x)(x)"):
             norm = cn.CustomNormalization(data=x, **kw)
@@ -360,7 +384,7 @@ def check(ctx, case):
             with ctx.sut(case, "frozen norm applied to a second array"):
                 y2 = norm(x2)
             _judge_output(case, x2, y2, lims, eps, "frozen norm(x2)")
-    if not np.array_equal(x, xin, equal_nan=True):
+    if xin is not None and not np.array_equal(x, xin, equal_nan=True):
         raise core.Violation("normalisation modified its input array in place", case)
 
 
